@@ -467,6 +467,11 @@ class FirewallClient:
             raise Fatal('cleanup: %r returned %d' % (self.argv, rv))
 
 
+# What may be written to the hosts file: a name of letters, digits, '-',
+# '_' and '.' up to the DNS length limit, and a dotted-quad address.
+HOSTNAME_RE = br'[-A-Za-z0-9_.]{1,253}\Z'
+HOSTIP_RE = br'[0-9]{1,3}\.[0-9]{1,3}\.[0-9]{1,3}\.[0-9]{1,3}\Z'
+
 dnsreqs = {}
 udp_by_src = {}
 
@@ -778,7 +783,13 @@ def _main(tcp_listener, udp_listener, fw, ssh_cmd, remotename,
         debug2('got host list: %r' % hostlist)
         for line in hostlist.strip().split():
             if line:
-                name, ip = line.split(b',', 1)
+                name, sep, ip = line.partition(b',')
+                if not (sep and re.match(HOSTNAME_RE, name)
+                        and re.match(HOSTIP_RE, ip)):
+                    # a bad entry from the remote side is skipped; it
+                    # must not end the session or reach the hosts file.
+                    debug1('ignoring invalid host list entry %r' % line)
+                    continue
                 fw.sethostip(name, ip)
     mux.got_host_list = onhostlist
 
